@@ -1139,7 +1139,14 @@ impl IpHeaders {
         match self {
             IpHeaders::Ipv4(ipv4_hdr, exts) => {
                 if let Some(complete_len) = len.checked_add(exts.header_len()) {
-                    ipv4_hdr.set_payload_len(complete_len)
+                    // report the given length & the maximum without the extension headers
+                    ipv4_hdr
+                        .set_payload_len(complete_len)
+                        .map_err(|err| ValueTooBigError {
+                            actual: len,
+                            max_allowed: err.max_allowed - exts.header_len(),
+                            value_type: err.value_type,
+                        })
                 } else {
                     Err(ValueTooBigError {
                         actual: len,
@@ -1152,7 +1159,14 @@ impl IpHeaders {
             }
             IpHeaders::Ipv6(ipv6_hdr, exts) => {
                 if let Some(complete_len) = len.checked_add(exts.header_len()) {
-                    ipv6_hdr.set_payload_length(complete_len)
+                    // report the given length & the maximum without the extension headers
+                    ipv6_hdr
+                        .set_payload_length(complete_len)
+                        .map_err(|err| ValueTooBigError {
+                            actual: len,
+                            max_allowed: err.max_allowed - exts.header_len(),
+                            value_type: err.value_type,
+                        })
                 } else {
                     Err(ValueTooBigError {
                         actual: len,
